@@ -9,8 +9,9 @@
    [apply_context] (ApplySpec.v) are the reference appliers written from the diffutils manual. *)
 From Coq Require Import NArith ZArith List Lia.
 Import ListNotations.
-From Mds Require Import Mdiff.Decimal Mdiff.ReaderModel Mdiff.FormatSpec Mdiff.ApplySpec
-  Mdiff.ReaderNormalProofs Mdiff.ApplyNormalProofs.
+From Mds Require Import Mdiff.Decimal Mdiff.ReaderModel Mdiff.FormatSpec Mdiff.ApplySpec Mdiff.FormatInst
+  Mdiff.ReaderNormalProofs Mdiff.ApplyNormalProofs Mdiff.ReaderUnifiedProofs Mdiff.ApplyUnifiedProofs
+  Mdiff.FormatRefuted.
 Local Open Scope Z_scope.
 
 (* every number the formatters print is read back by the model of strconv.Atoi *)
@@ -65,3 +66,130 @@ Proof. exact apply_normal_text. Qed.
 Print Assumptions C14_normal_apply.
 Example C14_normal_apply_ex : apply_normal ex_L (split_lines (normal ex_cs)) = Some ex_R.
 Proof. vm_compute. reflexivity. Qed.
+
+(* ---- unified format ----
+   The model carries the two known findings as switches of a [variant]: [pinned] is the code as it
+   stands (range spellings and the omitted-count default taken from Gen/MdiffSpan.v and
+   Gen/MdiffReadSpan.v), [repaired] reads an omitted count as 1 (F5) and names an empty range by
+   the line before it (F6).  Timestamps are opaque tokens: all that is assumed of them is
+   parse (format t) = Some t for non-zero t, that the text has no newline, and that zero is one
+   value.  File names: no tab, no newline ([info_ok]); empty names come back as "a" / "b"
+   ([expected_info]); a diff without chunks is the empty text and reads back as the empty patch. *)
+
+(* the generated definitions are the pinned ones (checked on a grid; breaks when uspan or
+   parseSpan's default change) *)
+Theorem C14_code_is_pinned : gen_facts_pinned = true.
+Proof. exact code_is_pinned. Qed.
+Print Assumptions C14_code_is_pinned.
+
+(* FULL statement, under the repaired switches: for every chunk list (empty, one-line and
+   empty-range hunks included), every header: ReadUnified(Unified(chunks)) returns the chunks hunk
+   for hunk at the same ranges (edits regrouped as a hunk body can express them) and the header. *)
+Theorem C14_unified_roundtrip :
+  forall (time : Type) (zero_time : time) (time_is_zero : time -> bool)
+         (format_time : time -> bytes) (parse_time : bytes -> option time),
+    (forall t, time_is_zero t = false -> parse_time (format_time t) = Some t) ->
+    (forall t, newline_free (format_time t)) ->
+    (forall t, time_is_zero t = true -> t = zero_time) ->
+  forall (fi : option (file_info time)) (cs : list (chunk line)),
+    lines_nf cs -> info_ok time fi ->
+    read_unified time zero_time parse_time repaired (unified time_is_zero format_time repaired fi cs)
+    = ROk (mkPatch (expected_info time fi cs) (unified_normalise cs)).
+Proof.
+  intros time z iz fmt prs H1 H2 H3 fi cs Hnf Hfi.
+  apply (read_unified_unified time z iz fmt prs H1 H2 H3); [left; reflexivity | exact Hnf | exact Hfi].
+Qed.
+Print Assumptions C14_unified_roundtrip.
+Example C14_unified_roundtrip_ex :
+  x_read_unified repaired (x_unified repaired (Some (mkFileInfo [120]%N [] [] []))
+     (f5_cs ++ [mkChunk [mkEdit Copy [] [[121]%N]] 4 4 4 5]))
+  = ROk (mkPatch (Some (mkFileInfo [120]%N [98]%N [] []))
+     [mkChunk [mkEdit Drop [[98]%N] []; mkEdit Copy [] [[99]%N]] 2 3 2 3; mkChunk [mkEdit Copy [] [[121]%N]] 4 4 4 5]).
+Proof. vm_compute. reflexivity. Qed.
+
+(* the same statement on the code as it stands, restricted away from the trigger of F5: no hunk
+   with a one-line side.  Missing for the full statement: one-line sides (see _refuted). *)
+Theorem C14_unified_roundtrip_partial :
+  forall (time : Type) (zero_time : time) (time_is_zero : time -> bool)
+         (format_time : time -> bytes) (parse_time : bytes -> option time),
+    (forall t, time_is_zero t = false -> parse_time (format_time t) = Some t) ->
+    (forall t, newline_free (format_time t)) ->
+    (forall t, time_is_zero t = true -> t = zero_time) ->
+  forall (fi : option (file_info time)) (cs : list (chunk line)),
+    Forall no_one_line_side cs -> lines_nf cs -> info_ok time fi ->
+    read_unified time zero_time parse_time pinned (unified time_is_zero format_time pinned fi cs)
+    = ROk (mkPatch (expected_info time fi cs) (unified_normalise cs)).
+Proof.
+  intros time z iz fmt prs H1 H2 H3 fi cs Hno Hnf Hfi.
+  apply (read_unified_unified time z iz fmt prs H1 H2 H3); [right; exact Hno | exact Hnf | exact Hfi].
+Qed.
+Print Assumptions C14_unified_roundtrip_partial.
+Example C14_unified_roundtrip_partial_ex :
+  Forall no_one_line_side [mkChunk [mkEdit Replace [[98]; [98]]%N [[99]; [100]; [101]]%N] 2 4 2 5].
+Proof. repeat constructor; cbn; lia. Qed.
+
+(* F5: on the code as it stands "@@ -2 +2 @@" comes back as two empty ranges and re-formats differently *)
+Theorem C14_roundtrip_refuted :
+  exists cs : list (chunk line), exists p,
+    patch_ok [[97]; [98]]%N [[97]; [99]]%N cs /\
+    x_read_unified pinned (x_unified pinned None cs) = ROk p /\
+    p_chunks p <> unified_normalise cs /\
+    p_chunks p = [mkChunk [mkEdit Drop [[98]%N] []; mkEdit Copy [] [[99]%N]] 2 2 2 2] /\
+    x_unified pinned (p_info p) (p_chunks p) <> x_unified pinned None cs.
+Proof. exact roundtrip_refuted. Qed.
+Print Assumptions C14_roundtrip_refuted.
+
+(* re-formatting the patch that was read reproduces the text byte for byte: every variant, every
+   chunk list, every header *)
+Theorem C14_unified_reformat :
+  forall (time : Type) (time_is_zero : time -> bool) (format_time : time -> bytes)
+         (v : variant) (fi : option (file_info time)) (cs : list (chunk line)),
+    unified time_is_zero format_time v (expected_info time fi cs) (unified_normalise cs)
+    = unified time_is_zero format_time v fi cs.
+Proof. exact unified_reformat. Qed.
+Print Assumptions C14_unified_reformat.
+
+(* FULL statement, under the repaired switches: the unified rendering (with or without file
+   header), read by the rules of the unified format, turns Left into Right *)
+Theorem C14_unified_apply :
+  forall (time : Type) (time_is_zero : time -> bool) (format_time : time -> bytes),
+    (forall t, newline_free (format_time t)) ->
+  forall (fi : option (file_info time)) (L R : list line) (cs : list (chunk line)),
+    patch_ok L R cs -> lines_nf cs -> info_ok time fi ->
+    apply_unified L (split_lines (unified time_is_zero format_time repaired fi cs)) = Some R.
+Proof.
+  intros time iz fmt H fi L R cs Hp Hnf Hfi.
+  apply (apply_unified_text time iz fmt H); [left; reflexivity | exact Hp | exact Hnf | exact Hfi].
+Qed.
+Print Assumptions C14_unified_apply.
+Example C14_unified_apply_ex :
+  apply_unified ex_L (split_lines (x_unified repaired None ex_cs)) = Some ex_R
+  /\ apply_unified [[97]%N] (split_lines (x_unified repaired None f6_cs)) = Some [[98]; [97]]%N.
+Proof. vm_compute. auto. Qed.
+
+(* on the code as it stands, restricted away from the trigger of F6: no hunk with an empty left
+   range (no pure insertion without context).  Missing: those hunks (see _refuted). *)
+Theorem C14_unified_apply_partial :
+  forall (time : Type) (time_is_zero : time -> bool) (format_time : time -> bytes),
+    (forall t, newline_free (format_time t)) ->
+  forall (fi : option (file_info time)) (L R : list line) (cs : list (chunk line)),
+    Forall nonempty_left cs -> patch_ok L R cs -> lines_nf cs -> info_ok time fi ->
+    apply_unified L (split_lines (unified time_is_zero format_time pinned fi cs)) = Some R.
+Proof.
+  intros time iz fmt H fi L R cs Hne Hp Hnf Hfi.
+  apply (apply_unified_text time iz fmt H); [right; exact Hne | exact Hp | exact Hnf | exact Hfi].
+Qed.
+Print Assumptions C14_unified_apply_partial.
+Example C14_unified_apply_partial_ex :
+  Forall nonempty_left f5_cs /\ apply_unified [[97]; [98]]%N (split_lines (x_unified pinned None f5_cs)) = Some [[97]; [99]]%N.
+Proof. split; [constructor; [unfold nonempty_left; cbn; lia | constructor] | vm_compute; reflexivity]. Qed.
+
+(* F6: Left = [a], Right = [b; a]: the hunk "@@ -1,0 +1 @@ +b" inserts after line 1 *)
+Theorem C14_apply_refuted :
+  exists (L R : list line) (cs : list (chunk line)),
+    patch_ok L R cs /\
+    x_unified pinned None cs = [64;64;32;45;49;44;48;32;43;49;32;64;64;10; 43;98;10]%N /\
+    apply_unified L (split_lines (x_unified pinned None cs)) = Some [[97]; [98]]%N /\
+    apply_unified L (split_lines (x_unified pinned None cs)) <> Some R.
+Proof. exact apply_refuted. Qed.
+Print Assumptions C14_apply_refuted.
